@@ -6,7 +6,11 @@ several pages, retried calls) against a fake endpoint mounted as an httpx transp
 the way a connection does; every request is captured as httpx emits it (method, raw request target, raw headers, the body
 parts received).  Attempts are ended by fault plans: error statuses AND transport-level failures (connect / read / write /
 protocol / timeout errors, i.e. httpx.TransportError) striking before the body, after k parts of it, after its last part or
-after its end — every attempt of the retried call is captured and judged, the retries in particular.
+after its end — every attempt of the retried call is captured and judged, the retries in particular.  The fake also answers
+with replies beyond 2xx / 4xx / 5xx (harness/impl/c16_redirect.py): 301 / 302 / 303 / 307 / 308 with a `Location` (another path on
+the same origin, relative, another host / port / region endpoint, http ↔ https, the same URL), 1xx, 300, 304, 305, 306 and
+redirect statuses without `Location`.  The fake connection serves EVERY host, so a request that anything (the adapter, or the HTTP
+library following a redirect by itself) sends anywhere is captured and judged for the endpoint it was sent to.
 
 * direct oracle  = harness/ref/sigv4_verify.py (independent implementation of the published algorithm, hashlib/hmac only)
   recomputes the signature FROM THE WIRE and checks the declared payload hash / content length against the body sent;
@@ -14,7 +18,9 @@ after its end — every attempt of the retried call is captured and judged, the 
   the Host header and the complete Authorization header (hence canonical request, string to sign, key chain, signature);
   the Lean *reference* (`sigv4.ref`, the definition the theorems compare the client with) must agree with the independent
   verifier's canonical request and signature on the real wire; the payload model (`sigv4.payload`) must predict digest
-  input, declared length and body; the retry model (`sigv4.retry`: stream position carried from attempt to attempt, rewound or
+  input, declared length and body; the exchange model (`sigv4.exchange`: `send` + response hook + `backoff` against the script of
+  replies, with the generated `follow_redirects` / hook shape) must predict WHICH requests reach the wire (page, signing, hop) and
+  every header of each; the retry model (`sigv4.retry`: stream position carried from attempt to attempt, rewound or
   not per fault class as the generated `try` statement says) must predict what the service received of EVERY attempt of a
   faulted streamed upload; the encoders of the model are compared with the real urllib / httpx functions on all 256 bytes and
   on random strings.
@@ -25,7 +31,7 @@ import string
 from datetime import datetime, timedelta
 
 from ..common import rng_for
-from ..impl import s3_capture
+from ..impl import c16_redirect, s3_capture
 from ..ref import sigv4_verify
 
 SIG_D10 = 's3:query-space-signed-as-plus'
@@ -255,13 +261,37 @@ def gen_faults(r, call):
     return out
 
 
+def gen_reply_plan(r, call):
+    """A reply plan with at least one reply beyond 2xx / 4xx / 5xx (redirect with Location, 1xx / 300 / 304 / 305 / 306, a redirect
+    status without Location), mixed with error statuses and transport failures; 1–3 entries, so the call can still succeed."""
+    n = r.choices([1, 2, 3], [50, 35, 15])[0]
+    parts = n_parts(call)
+
+    def point():
+        cands = [None, 0, 1, parts, parts + 1]
+        if parts >= 2:
+            cands += [r.randint(1, parts - 1), parts - 1]
+        return r.choice(cands)
+    special = r.randrange(n)
+    out = []
+    for k in range(n):
+        if k == special or r.random() < 0.5:
+            out.append(c16_redirect.gen_reply(r, point))
+        elif r.random() < 0.5:
+            out.append({'kind': 'status', 'status': r.choice([500, 503, 429, 502, 408]), 'pulled': None if r.random() < 0.7 else point()})
+        else:
+            exc = r.choice(TRANSPORT_EXC)
+            out.append({'kind': 'transport', 'exc': exc, 'pulled': 0 if exc in BEFORE_BODY_ONLY else point()})
+    return out
+
+
 def fault_point(f, parts):
     k = f.get('pulled')
     return 'after-end-of-body' if (k is None or k > parts) else 'before-body' if k == 0 else 'after-last-part' if k == parts else 'mid-body'
 
 
-def gen_case(r, idx, quick, force=None):
-    """One adapter call with its configuration and clock."""
+def gen_case(r, idx, quick, force=None, replies=False):
+    """One adapter call with its configuration and clock (`replies`: with a reply plan beyond 2xx / 4xx / 5xx)."""
     cfg = gen_cfg(r)
     kind = (force or {}).get('call') or r.choices(['upload', 'upload_stream', 'download', 'download_stream', 'exists', 'delete', 'list_files'],
                                                   [16, 16, 10, 10, 12, 10, 26])[0]
@@ -281,8 +311,12 @@ def gen_case(r, idx, quick, force=None):
                 call['chunk_size'] = r.choice([1, 7, 64, 4096, 128_000]) if len(call['data']) < 5000 else r.choice([4096, 65_536, 128_000])
         if kind in ('download', 'download_stream'):
             call['get_body'] = r.randbytes(r.choice([0, 1, 100, 5000]))
+    if replies:
+        if kind == 'upload_stream' and len(call['data']) >= 2 and r.random() < 0.5:
+            call['chunk_size'] = max(1, len(call['data']) // r.choice([2, 3, 5]))
+        call['faults'] = gen_reply_plan(r, call)
     # every call is retried by backoff; the streamed upload is the one whose retries depend on state (the stream) — weight it
-    if r.random() < (0.45 if kind == 'upload_stream' else 0.08):
+    elif r.random() < (0.45 if kind == 'upload_stream' else 0.08):
         if kind == 'upload_stream' and r.random() < 0.6:
             # several parts, so that "mid-body" exists
             L = len(call['data'])
@@ -323,6 +357,25 @@ def fmt_amz(t):
 
 def hx(s):
     return (s.encode('utf-8') if isinstance(s, str) else bytes(s)).hex()
+
+
+def exchange_request(cfg, call, reqs, clock_log):
+    """`sigv4.exchange`: the whole call against the script of replies the service gave (one per request that arrived, in order,
+    then what is left of the plan)."""
+    kind = call['call']
+    plan = s3_capture.normalise_faults(call)
+    script = [c16_redirect.model_reply(rq.fault) for rq in reqs]
+    script += [c16_redirect.model_reply(f) for f in plan[sum(1 for rq in reqs if rq.fault is not None):]]
+    m = {'op': 'sigv4.exchange', 'method': hx(METHOD[kind]), 'host': hx(cfg['host']), 'scheme': hx(cfg['scheme']), 'region': hx(cfg['region']),
+         'key_id': hx(cfg['key_id']), 'secret': hx(cfg['access_key']), 'amz_date': '', 'date': '',
+         'clocks': [[t.year, t.month, t.day, t.hour, t.minute, t.second] for t in clock_log], 'replies': script}
+    if kind == 'list_files':
+        m |= {'path': hx('/' + cfg['bucket']), 'list': True, 'prefix': hx(call.get('prefix', '')), 'tokens': [hx(t) for t in call['tokens']],
+              'payload_digest': hx(EMPTY_SHA)}
+    else:
+        m |= {'path': hx('/' + cfg['bucket'] + '/' + call['name']), 'query': [],
+              'payload_digest': hx(hashlib.sha256(call['data']).hexdigest() if kind in ('upload', 'upload_stream') else EMPTY_SHA)}
+    return m
 
 
 def model_requests(cfg, call, reqs, clock_log):
@@ -404,8 +457,17 @@ def classify(v, client_cr, mdl, cfg, call):
     return list(dict.fromkeys(sigs))
 
 
-def evaluate(out, cfg, call, clk, reqs, res, mrep, refrep, payrep, retryrep=None):
-    """Direct oracle + correspondence for one executed call."""
+def follows_redirect(reqs, j):
+    """request j went exactly where the redirect that answered request j-1 pointed"""
+    prev = reqs[j - 1].fault if j > 0 else None
+    z = (prev or {}).get('resolved')
+    rq = reqs[j]
+    return bool(z) and (rq.scheme, rq.endpoint, rq.target.decode('latin-1')) == (z['scheme'], z['netloc'], z['target'])
+
+
+def evaluate(out, cfg, call, clk, reqs, res, mrep, refrep, payrep, retryrep=None, signings=None):
+    """Direct oracle + correspondence for one executed call.  `signings`: how many times the adapter read the clock, i.e. built
+    and signed a request (fewer than the requests on the wire = somebody else put requests there)."""
     kind = call['call']
     start, step, ccls = clk
     secrets = {cfg['key_id']: cfg['access_key']}
@@ -421,15 +483,25 @@ def evaluate(out, cfg, call, clk, reqs, res, mrep, refrep, payrep, retryrep=None
     if not reqs and 'error' not in res:
         out.disagreement('adapter call sent no request', {'replay': replay})
     for j, rq in enumerate(reqs):
-        v = sigv4_verify.verify(rq.method, rq.target, rq.headers, rq.body, secrets=secrets, region=cfg['region'], service='s3', server_now=rq.server_now,
-                                body_complete=rq.complete)
+        # judged for the endpoint it was sent to: the configured one, or one that a redirect pointed to (possibly of another region)
+        v = sigv4_verify.verify(rq.method, rq.target, rq.headers, rq.body, secrets=secrets, region=rq.endpoint_region or cfg['region'], service='s3',
+                                server_now=rq.server_now, body_complete=rq.complete)
         out.evaluations += 1
-        # what led to this request: the first attempt, or a retry after a failure of some class at some point of the body
-        prev = plan[j - 1] if 0 < j <= len(plan) else None
+        # what led to this request: the first attempt, or the reply (failure of some class at some point of the body, redirect,
+        # other non-2xx status) to the request before it
+        prev = reqs[j - 1].fault if j > 0 else None
+        went_to_location = follows_redirect(reqs, j)
         ctx = 'first attempt' if prev is None else (
-            f"retry after {'HTTP ' + str(prev['status']) if prev['kind'] == 'status' else 'httpx.' + prev['exc']} ({fault_point(prev, parts)})")
-        if prev is not None:
+            f"sent after {c16_redirect.label(prev)} ({fault_point(prev, parts)})" + (', to the redirect target' if went_to_location else ''))
+        if prev is not None and prev['kind'] in ('status', 'transport'):
             out.count(f"request_after:{prev['kind']}-fault:{fault_point(prev, parts)}" + (':streamed-upload' if kind == 'upload_stream' else ''))
+        elif prev is not None:
+            out.count('request_after:' + (f"redirect-to:{prev['resolved']['class']}" if prev['kind'] == 'redirect' else 'odd-status'))
+            out.count('request_after_redirect_or_odd_status:' + kind)
+            out.count('request_after:' + (f"redirect:{prev['status']}" if prev['kind'] == 'redirect' else f"odd-status:{prev['status']}"))
+            out.count('request_after_redirect_or_odd_status:' + ('sent-to-redirect-target' if went_to_location else 'sent-to-configured-endpoint'))
+        if rq.endpoint_region is not None and (rq.scheme, rq.endpoint) != (cfg['scheme'], c16_redirect.netloc_of(cfg['scheme'], *c16_redirect.split_netloc(cfg['host']))):
+            out.count('requests_at_an_endpoint_a_redirect_pointed_to')
         out.count('attempt:' + ('body-received-in-full' if rq.complete else 'broken-before-end-of-body'))
         m = mrep[j] if mrep is not None else None
         tie_ok = None
@@ -451,10 +523,13 @@ def evaluate(out, cfg, call, clk, reqs, res, mrep, refrep, payrep, retryrep=None
                     diffs.append(('x-amz-content-sha256', bytes.fromhex(m['wire_content_sha']).decode(), (rq.header('x-amz-content-sha256') or [''])[0]))
                 if bytes.fromhex(m['wire_amz_date']).decode() != (rq.header('x-amz-date') or [''])[0]:
                     diffs.append(('x-amz-date', bytes.fromhex(m['wire_amz_date']).decode(), (rq.header('x-amz-date') or [''])[0]))
-                if rq.method != METHOD[kind]:
-                    diffs.append(('method', METHOD[kind], rq.method))
-                if j < len(client_crs) and len(client_crs) == len(reqs) and bytes.fromhex(m['canonical_request']).decode('utf-8') != client_crs[j]:
-                    diffs.append(('canonical request (instrumented)', bytes.fromhex(m['canonical_request']).decode('utf-8'), client_crs[j]))
+                want_method = bytes.fromhex(m['wire_method']).decode() if 'wire_method' in m else METHOD[kind]
+                if rq.method != want_method:
+                    diffs.append(('method', want_method, rq.method))
+                k_sign = m.get('signing', j)          # the signing this request belongs to (exchange model), else one per request
+                if k_sign < len(client_crs) and (len(client_crs) == len(reqs) or 'signing' in m) and \
+                        bytes.fromhex(m['canonical_request']).decode('utf-8') != client_crs[k_sign]:
+                    diffs.append(('canonical request (instrumented)', bytes.fromhex(m['canonical_request']).decode('utf-8'), client_crs[k_sign]))
                 tie_ok = not diffs
                 if diffs:
                     out.disagreement('model and implementation differ on: ' + ', '.join(d[0] for d in diffs),
@@ -462,8 +537,10 @@ def evaluate(out, cfg, call, clk, reqs, res, mrep, refrep, payrep, retryrep=None
                 else:
                     out.traces_validated += 1
                 # the model's own verdict (client signature = reference signature on the predicted wire) must be the verifier's
-                model_says_ok = m['signature'] == m['ref_signature']
-                sig_ok = 'signature-mismatch' not in v.problems
+                model_says_ok = bool(m['authorization']) and m['signature'] == m['ref_signature']
+                sig_ok = not ({'signature-mismatch', 'missing-authorization'} & set(v.problems))
+                if m.get('hop', 0) > 0:
+                    out.count('model:request_emitted_by_the_http_library')
                 if tie_ok and model_says_ok != sig_ok:
                     out.disagreement('Lean reference and independent verifier disagree on whether the signature verifies',
                                      {'replay': replay, 'request_index': j, 'model_says_ok': model_says_ok, 'verifier_problems': v.problems})
@@ -479,14 +556,31 @@ def evaluate(out, cfg, call, clk, reqs, res, mrep, refrep, payrep, retryrep=None
                 else:
                     out.traces_validated += 1
         # ---- direct oracle
+        if (rq.header('host') or [None]) != [rq.endpoint]:
+            out.count('rejected:s3:host-header-differs-from-endpoint')
+            out.violation('s3:host-header-differs-from-endpoint', f'{rq.method} {rq.target.decode("latin-1")} was sent to {rq.scheme}://{rq.endpoint} with '
+                          f'Host: {rq.header("host")} (request {j} of the call, {ctx})', dict(replay, request_index=j, wire=rq.as_dict()))
         if not v.ok:
             ccr = client_crs[j] if len(client_crs) == len(reqs) else (bytes.fromhex(m['canonical_request']).decode('utf-8') if (m and tie_ok) else None)
-            what = (f'{rq.method} {rq.target.decode("latin-1")} (Host: {(rq.header("host") or ["?"])[0]}; request {j} of the call, {ctx}) is rejected by the '
-                    f'independent SigV4 verifier: {", ".join(v.problems)}'
+            # more requests on the wire than the adapter signed, and this one went where the redirect before it pointed: it was
+            # not built by the adapter's signing code (an unsigned or stale-signed follow-up) — whatever put it there
+            foreign = signings is not None and len(reqs) > signings and went_to_location
+            what = (f'{rq.method} {rq.target.decode("latin-1")} sent to {rq.scheme}://{rq.endpoint} (Host: {(rq.header("host") or ["?"])[0]}; request {j} of the call, '
+                    f'{ctx}) is rejected by the independent SigV4 verifier: {", ".join(v.problems)}'
+                    + (f' [the adapter signed {signings} request(s), {len(reqs)} reached the wire; this one carries '
+                       + ('no Authorization header' if not rq.header('authorization') else 'the Authorization header of the request before it'
+                          if rq.header('authorization') == reqs[j - 1].header('authorization') else 'another Authorization header')
+                       + f', x-amz-date {(rq.header("x-amz-date") or ["-"])[0]}]' if foreign else '')
                     + (f' [content-length {(rq.header("content-length") or ["-"])[0]}, {len(rq.body)} body bytes sent]' if kind in ('upload', 'upload_stream') else ''))
-            for sig in classify(v, ccr, m, cfg, call):
+            if foreign:
+                main = next((q for q in ('missing-authorization', 'signature-mismatch') if q in v.problems), v.problems[0])
+                sigs = ['s3:request-not-signed-afresh:' + main]
+            else:
+                sigs = classify(v, ccr, m, cfg, call)
+            for sig in sigs:
                 out.count('rejected:' + sig)
-                out.violation(sig, what, dict(replay, request_index=j, wire=rq.as_dict(), verifier=v.as_dict(), client_canonical_request=ccr))
+                out.violation(sig, what, dict(replay, request_index=j, wire=rq.as_dict(), verifier=v.as_dict(), client_canonical_request=ccr,
+                                              signings=signings, requests_on_the_wire=len(reqs)))
         # ---- payload: body sent = payload handed over
         if kind in ('upload', 'upload_stream'):
             if rq.complete and rq.body != call['data']:
@@ -539,8 +633,10 @@ def evaluate(out, cfg, call, clk, reqs, res, mrep, refrep, payrep, retryrep=None
             out.violation('s3:unexpected-body', f'{kind} sent a {len(rq.body)}-byte body', dict(replay, request_index=j))
     # ---- results of the call (sanity of the capture, not part of the property)
     expect_n = n_faults(call) + (1 + len(call.get('tokens', [])) if kind == 'list_files' else 1)
-    if 'error' not in res and len(reqs) != expect_n:
+    if 'error' not in res and len(reqs) != expect_n and mrep is None:
         out.disagreement(f'{kind}: {len(reqs)} requests observed, {expect_n} expected', {'replay': replay})
+    if signings is not None and len(reqs) != signings:
+        out.count('calls_with_requests_nobody_signed' if len(reqs) > signings else 'calls_with_unsent_signed_requests')
 
 
 def nontrivial(cfg, call):
@@ -675,9 +771,16 @@ def execute(out, drv, cases, label):
         batch = cases[i:i + B]
         clocks = [s3_capture.Clock(start, step) for _, _, (start, step, _) in batch]
         results = s3_capture.run_calls([(cfg, call, ck) for (cfg, call, _), ck in zip(batch, clocks)])
-        sign_reqs, ref_reqs, pay_reqs, retry_reqs, spans = [], [], [], [], []
+        sign_reqs, ref_reqs, pay_reqs, retry_reqs, ex_reqs, spans = [], [], [], [], [], []
         for (cfg, call, clk), ck, (reqs, res) in zip(batch, clocks, results):
-            ms = model_requests(cfg, call, reqs, ck.log)
+            # calls with a reply plan: the exchange model says which requests reach the wire; the others: one signing per request
+            xi = None
+            if s3_capture.normalise_faults(call):
+                xi = len(ex_reqs)
+                ex_reqs.append(exchange_request(cfg, call, reqs, ck.log))
+                ms = []
+            else:
+                ms = model_requests(cfg, call, reqs, ck.log)
             rs = []
             for rq in reqs:
                 raw_path, _, raw_query = rq.target.partition(b'?')
@@ -701,8 +804,9 @@ def execute(out, drv, cases, label):
                 # the fault plan in the model's terms: class and number of parts pulled (None = up to and including the read that hits EOF)
                 np_ = n_parts(call)
                 rt = {'op': 'sigv4.retry', 'data': call['data'].hex(), 'pos': 0, 'length': len(call['data']), 'chunk': call.get('chunk_size', 128_000),
-                      'faults': [[0 if f['kind'] == 'status' else 1, np_ + 1 if f.get('pulled') is None else f['pulled']] for f in plan]}
-            spans.append((len(sign_reqs), len(ms), len(pay_reqs) if p else None, len(retry_reqs) if rt else None))
+                      # a redirect / other non-2xx status reaches the adapter as an HTTPStatusError, like an error status
+                      'faults': [[1 if f['kind'] == 'transport' else 0, np_ + 1 if f.get('pulled') is None else f['pulled']] for f in plan]}
+            spans.append((len(sign_reqs), len(ms), len(pay_reqs) if p else None, len(retry_reqs) if rt else None, xi, len(ref_reqs), len(rs)))
             sign_reqs += ms
             ref_reqs += rs
             if p:
@@ -714,7 +818,8 @@ def execute(out, drv, cases, label):
             ref_rep = ask_safely(drv, ref_reqs)
             pay_rep = ask_safely(drv, pay_reqs)
             retry_rep = ask_safely(drv, retry_reqs)
-        for (cfg, call, clk), (reqs, res), (s0, n, pi, ri) in zip(batch, results, spans):
+            ex_rep = ask_safely(drv, ex_reqs)
+        for (cfg, call, clk), ck, (reqs, res), (s0, n, pi, ri, xi, r0, rn) in zip(batch, clocks, results, spans):
             nt = nontrivial(cfg, call)
             out.case(case_summary(cfg, call, clk), nt)
             out.evaluations -= 1          # evaluations are counted per request in evaluate()
@@ -740,18 +845,45 @@ def execute(out, drv, cases, label):
                 out.count('faults_per_call:%d' % len(plan))
                 np_ = n_parts(call) if 'name' in call else 1
                 for f in plan:
-                    out.count('fault:' + (f'status:{f["status"]}' if f['kind'] == 'status' else 'transport:' + f['exc']))
+                    if f['kind'] in ('status', 'transport'):
+                        out.count('fault:' + (f'status:{f["status"]}' if f['kind'] == 'status' else 'transport:' + f['exc']))
+                    elif f['kind'] == 'redirect':
+                        out.count(f'reply:redirect:{f["status"]}')
+                        out.count('redirect_target:' + f['target'])
+                    else:
+                        out.count(f'reply:odd-status:{f["status"]}' + (':with-location' if f.get('location') else ''))
                     out.count(f'fault_point:{f["kind"]}:{fault_point(f, np_)}')
+                if any(f['kind'] in ('redirect', 'odd') for f in plan):
+                    out.count('calls_with_replies_beyond_2xx_4xx_5xx')
+                    out.count('calls_with_replies_beyond_2xx_4xx_5xx:' + kind)
                 if kind == 'upload_stream':
                     out.count('streamed_upload_body_parts:' + ('0' if np_ == 0 else '1' if np_ == 1 else '2-9' if np_ < 10 else '>=10'))
                     if any(f['kind'] == 'transport' and fault_point(f, np_) in ('mid-body', 'after-last-part', 'after-end-of-body') for f in plan):
                         out.count('streamed_upload_retried_after_transport_fault_with_body_consumed')
             out.count('requests', len(reqs))
+            mrep = sign_rep[s0:s0 + n] if drv is not None else None
+            if drv is not None and xi is not None:
+                x = ex_rep[xi]
+                rp = {'cfg': dict(cfg), 'call': {k: (v.hex() if isinstance(v, bytes) else v) for k, v in call.items()}, 'clock': {'start': clk[0].isoformat(), 'step': clk[1]}}
+                if 'error' in x:
+                    out.disagreement('driver error (sigv4.exchange)', {'replay': rp, 'reply': x})
+                    mrep = [None] * len(reqs)
+                else:
+                    mrep = list(x['requests'])
+                    if len(mrep) != len(reqs) or x['signings'] != len(ck.log) or x['ok'] != ('error' not in res):
+                        out.disagreement(f"exchange model: {len(mrep)} requests from {x['signings']} signings, call {'succeeds' if x['ok'] else 'fails'}; "
+                                         f"implementation: {len(reqs)} requests from {len(ck.log)} signings, call {'failed: ' + res['error'] if 'error' in res else 'succeeded'}",
+                                         {'replay': rp, 'model_requests': [[q['page'], q['signing'], q['hop']] for q in mrep],
+                                          'follow_redirects': x['follow_redirects'], 'hook_raises_on_non_2xx': x['hook_raises_on_non_2xx']})
+                    else:
+                        out.traces_validated += 1
+                    mrep = (mrep + [None] * len(reqs))[:len(reqs)]
             evaluate(out, cfg, call, clk, reqs, res,
-                     sign_rep[s0:s0 + n] if drv is not None else None,
-                     ref_rep[s0:s0 + n] if drv is not None else None,
+                     mrep,
+                     ref_rep[r0:r0 + rn] if drv is not None else None,
                      pay_rep[pi] if (drv is not None and pi is not None) else None,
-                     retry_rep[ri] if (drv is not None and ri is not None) else None)
+                     retry_rep[ri] if (drv is not None and ri is not None) else None,
+                     signings=len(ck.log))
     out.count('cases:' + label, len(cases))
 
 
@@ -779,7 +911,10 @@ def run(out, drv, info):
     quick = out.tier == 'quick'
     out.rule = ('case = one adapter call (upload, upload_stream, download, download_stream, exists, delete, list_files with 1–5 pages) × fault plan (none, or 1–3 failing '
                 'attempts: error status or transport-level failure — connect / read / write / protocol / timeout — striking before the body, after k of its parts, '
-                'after its last part or after its end; 45 % of the streamed uploads, 8 % of the other calls) × '
+                'after its last part or after its end; 45 % of the streamed uploads, 8 % of the other calls; plus a stream of calls whose plan has at least one '
+                'reply beyond 2xx / 4xx / 5xx: 301 / 302 / 303 / 307 / 308 with a Location — another path on the same origin, relative, query added, the same URL, '
+                'another host, another region\'s endpoint, another port, http → https, https → http — or 1xx / 300 / 304 / 305 / 306 / a redirect status without '
+                'Location; every request that reaches any endpoint behind the fake connection is judged for the endpoint it was sent to) × '
                 'configuration (S3 / S3-compatible, scheme, host, region, bucket, credentials) × patched clock (midnight, year boundary, leap day, '
                 'single-digit fields, random; advancing between requests); names / prefixes / tokens from replicat-shaped, plain, printable-special, '
                 'non-ASCII, mixed, structural (slashes, percent, dots) and dot-segment classes, plus a systematic sweep of every byte 0x20–0x7E and '
@@ -791,7 +926,10 @@ def run(out, drv, info):
                        'the independent verifier (harness/ref/sigv4_verify.py) is trusted; it is checked on every run against the four published AWS examples',
                        'upload_stream: the stream is handed over at position 0 (all callers in replicat do; that every attempt starts from 0 again is proved from the generated try statement and explored by the fault plans)',
                        'the fake connection takes a request body to be the parts its iterator yields (it does not cut it at the declared length); an attempt whose iterator was not exhausted is judged as a prefix',
-                       'S3 form-decodes the query string (“+” = space); the literal reading of “+” is evaluated as well and also rejects']
+                       'S3 form-decodes the query string (“+” = space); the literal reading of “+” is evaluated as well and also rejects',
+                       'reply plans hold at most 3 entries that are not answers and no 403 / 404 (the give-up status of backoff and the "missing" answer of exists), so a call '
+                       'can always succeed; an endpoint that a redirect points to accepts the configured credentials and expects its own region in the credential scope; '
+                       'httpx\'s redirect handling (method change, header copying, Authorization stripping away from the origin) is modelled (`followRequest`), not verified']
     out.extra['verifier_selftest_vectors'] = verifier_selftest()
     r = rng_for(out.seed, 'C16')
     gen = None
@@ -837,11 +975,40 @@ def run(out, drv, info):
         (dict(cfg0, backend='s3', region='eu-west-1', scheme='https', host='s3.eu-west-1.amazonaws.com', host_class='aws'),
          {'call': 'list_files', 'prefix': 'snapshots/', 'prefix_class': 'replicat', 'tokens': ['1ueGcxLPRx1Tr/XYExHnhbYLgveDs2J/wm36Hy4vbOwM='], 'token_classes': ['base64'], 'keys': ['a']}, t),
     ]
+    # replies beyond 2xx / 4xx / 5xx: what S3 does for a fresh / other-region bucket (307, 301), what gateways do (302 / 303 / 308, http → https), oddities
+    aws = dict(cfg0, backend='s3', region='eu-west-1', scheme='https', host='s3.eu-west-1.amazonaws.com', host_class='aws')
+    plain_http = dict(cfg0, host='storage.local')
+
+    def rd(status, target, pulled=None):
+        return {'kind': 'redirect', 'status': status, 'target': target, 'pulled': pulled}
+    corpus += [
+        (dict(aws), {'call': 'upload', 'name': 'data/ab/cdef', 'name_class': 'replicat', 'data': b'chunk' * 50, 'faults': [rd(307, 'other-region-endpoint')]}, t),
+        (dict(aws), {'call': 'download', 'name': 'data/ab/cdef', 'name_class': 'replicat', 'get_body': b'xyz', 'faults': [rd(301, 'other-region-endpoint'), rd(307, 'other-host')]}, t),
+        (dict(cfg0), {'call': 'exists', 'name': 'snapshots/zz', 'name_class': 'replicat', 'faults': [rd(307, 'same-origin-other-path')]}, t),
+        (dict(cfg0), {'call': 'delete', 'name': 'data/ab/to delete', 'name_class': 'special', 'faults': [rd(308, 'relative-other-path'), rd(302, 'same-origin-query-added')]}, t),
+        (dict(cfg0), {'call': 'upload_stream', 'name': 's1', 'name_class': 'plain', 'data': bytes(range(256)) * 8, 'chunk_size': 512,
+                      'faults': [rd(307, 'same-origin-other-path', 0), rd(307, 'other-port', 2)]}, t),
+        (dict(cfg0), {'call': 'upload_stream', 'name': 's2', 'name_class': 'plain', 'data': b'0123456789', 'chunk_size': 3,
+                      'faults': [rd(303, 'other-host'), {'kind': 'transport', 'exc': 'ReadError', 'pulled': 1}, rd(302, 'same-url')]}, t),
+        (dict(cfg0), {'call': 'download_stream', 'name': 'd1', 'name_class': 'plain', 'get_body': b'x' * 100, 'faults': [rd(302, 'same-origin-other-path')]}, t),
+        (dict(plain_http), {'call': 'upload', 'name': 'u', 'name_class': 'plain', 'data': b'abc', 'faults': [rd(301, 'scheme-upgrade'), rd(308, 'scheme-upgrade')]}, t),
+        (dict(aws), {'call': 'exists', 'name': 'k', 'name_class': 'plain', 'faults': [rd(307, 'scheme-downgrade')]}, t),
+        (dict(cfg0), {'call': 'list_files', 'prefix': 'data/', 'prefix_class': 'replicat', 'tokens': ['tok1', 'x+y/z='], 'token_classes': ['plain', 'base64'], 'keys': ['k1', 'k2', 'k3'],
+                      'faults': [rd(307, 'other-host'), rd(301, 'same-origin-other-path'), rd(307, 'same-url')]}, t),
+        (dict(cfg0), {'call': 'download', 'name': 'o1', 'name_class': 'plain', 'get_body': b'x',
+                      'faults': [{'kind': 'odd', 'status': 304, 'location': False, 'pulled': None}, {'kind': 'odd', 'status': 100, 'location': False, 'pulled': None},
+                                 {'kind': 'odd', 'status': 300, 'location': True, 'pulled': None}]}, t),
+        (dict(cfg0), {'call': 'upload', 'name': 'o2', 'name_class': 'plain', 'data': b'hello',
+                      'faults': [{'kind': 'odd', 'status': 307, 'location': False, 'pulled': None}, {'kind': 'odd', 'status': 101, 'location': False, 'pulled': 0},
+                                 {'kind': 'odd', 'status': 305, 'location': True, 'pulled': None}]}, t),
+    ]
     execute(out, drv, corpus, 'corpus')
     execute(out, drv, systematic_cases(rng_for(out.seed, 'C16-sys'), quick), 'systematic')
     if quick:
         cases = [gen_case(r, i, quick) for i in range(700)]
         execute(out, drv, cases, 'generated')
+        rr = rng_for(out.seed, 'C16-replies')
+        execute(out, drv, [gen_case(rr, i, quick, replies=True) for i in range(160)], 'generated-reply-plans')
     else:
         run_parallel(out, drv is not None, workers=8, per_worker=2500)
     stream_position_probe(out, drv)
@@ -856,6 +1023,8 @@ def _worker(args):
         r = rng_for(seed, 'C16-worker', w)
         cases = [gen_case(r, i, False) for i in range(count)]
         execute(sub, d, cases, 'generated')
+        rr = rng_for(seed, 'C16-worker-replies', w)
+        execute(sub, d, [gen_case(rr, i, False, replies=True) for i in range(max(1, count // 8))], 'generated-reply-plans')
     finally:
         if d is not None:
             ops = dict(d.ops)
@@ -902,17 +1071,20 @@ def replay(path, drv):
     (reqs, res), = s3_capture.run_calls([(cfg, call, ck)])
     bad = 0
     for j, rq in enumerate(reqs):
-        v = sigv4_verify.verify(rq.method, rq.target, rq.headers, rq.body, secrets={cfg['key_id']: cfg['access_key']}, region=cfg['region'],
+        v = sigv4_verify.verify(rq.method, rq.target, rq.headers, rq.body, secrets={cfg['key_id']: cfg['access_key']}, region=rq.endpoint_region or cfg['region'],
                                 server_now=rq.server_now, body_complete=rq.complete)
+        host_ok = (rq.header('host') or [None]) == [rq.endpoint]
         body_ok = (call['call'] not in ('upload', 'upload_stream') or (rq.body == call['data'] if rq.complete else call['data'].startswith(rq.body)))
-        print(f'request {j}: {rq.method} {rq.target.decode("latin-1")} Host={rq.header("host")} verifier_ok={v.ok} problems={v.problems} body_ok={body_ok} '
-              f'content-length={rq.header("content-length")} body_bytes_received={len(rq.body)} body_complete={rq.complete} ended_by={rq.fault}')
+        print(f'request {j}: {rq.method} {rq.target.decode("latin-1")} sent_to={rq.scheme}://{rq.endpoint} Host={rq.header("host")} verifier_ok={v.ok} problems={v.problems} '
+              f'body_ok={body_ok} content-length={rq.header("content-length")} body_bytes_received={len(rq.body)} body_complete={rq.complete} '
+              f'authorization={"present" if rq.header("authorization") else "ABSENT"} x-amz-date={rq.header("x-amz-date")} answered_with={rq.fault}')
         if not v.ok:
             print('  verifier canonical request:\n    ' + (v.canonical_request or '').replace('\n', '\n    '))
             crs = res.get('client_crs') or []
             if j < len(crs):
                 print('  client canonical request:\n    ' + crs[j].replace('\n', '\n    '))
-        bad += (not v.ok) or (not body_ok)
+        bad += (not v.ok) or (not body_ok) or (not host_ok)
+    print(f'the adapter signed {len(ck.log)} request(s); {len(reqs)} reached the wire')
     if 'error' in res:
         print('call raised:', res['error'])
     return 1 if bad else 0
